@@ -344,7 +344,20 @@ func (c *Connection) SendJSON(v interface{}) error {
 
 // Close closes the connection
 func (c *Connection) Close() error {
-	c.hub.unregister <- c
+	// The hub loop is the only receiver of unregister. When Close is called
+	// from a handler the loop itself is running (an `on message` block that
+	// closes the connection), a plain send would wait for the loop forever.
+	// Hand the unregistration over without waiting in that case.
+	select {
+	case c.hub.unregister <- c:
+	default:
+		go func() {
+			select {
+			case c.hub.unregister <- c:
+			case <-c.hub.shutdown:
+			}
+		}()
+	}
 	return c.conn.Close()
 }
 
